@@ -113,6 +113,9 @@ def gen_model(rng, cfg=None, feats=None):
             n_dS = max(n_dS, 1)
             for k_ in ("two_cont_states", "leave_above", "leave_below"):
                 F[k_] = False
+    if cfg.get("no_period"):
+        for k_ in ("period_transition", "period_utility", "period_filter", "period_constraint"):
+            F[k_] = False
     if not cfg.get("allow_stochastic", True):
         F["stochastic"] = False
         F["stoch_multi_dep"] = False
@@ -237,7 +240,7 @@ def gen_model(rng, cfg=None, feats=None):
 
     # ---------------------------------------------------------------- auxiliary
     aux = []
-    if F["period_utility"] or rng.random() < 0.3:
+    if (F["period_utility"] or rng.random() < 0.3) and not cfg.get("no_period"):
         functions.append(["age", ["_period"], "_period + 18"])
         params["age"] = {}
         aux.append("age")
@@ -471,7 +474,7 @@ def gen_model(rng, cfg=None, feats=None):
                 deps = [d for d in pool if rng.random() < 0.4]
                 if F["stoch_multi_dep"] and len(deps) < 2 and len(pool) >= 2:
                     deps = [str(x) for x in rng.permutation(pool)[:2]]
-                if F["period_transition"] and rng.random() < 0.6 or rng.random() < 0.15:
+                if (F["period_transition"] and rng.random() < 0.6 or rng.random() < 0.15) and not cfg.get("no_period"):
                     deps.append("_period")
                     realised["period_transition"] = True
                 if not deps:
